@@ -45,6 +45,7 @@ type ccEpisode struct {
 	Burst int      `json:"burst,omitempty"` // replay: run only ungated bursts, this many
 	Cold  bool     `json:"cold,omitempty"`  // replay: restart the server between setup and burst
 	Order []int    `json:"order,omitempty"` // replay: the order of requests (0 based) a recorded run let one store call through
+	Integ bool     `json:"integ,omitempty"` // requests on one upload session: judged by integrity only (C01: whatever is served hashes to its digest)
 }
 
 const ccRepo = "conc/repo"
@@ -141,6 +142,46 @@ func (s *ccSched) advance(a *ccActor, run func(a *ccActor), wait, limbo time.Dur
 	return true
 }
 
+// advanceTogether releases the pending store calls of the given actors at the same moment: the calls run in parallel, so
+// that what happens inside a store call (a mutex released and taken again, a file renamed while still open) is raced.
+func (s *ccSched) advanceTogether(as []*ccActor, run func(a *ccActor), wait, limbo time.Duration) bool {
+	ready := []*ccActor{}
+	for _, a := range as {
+		if a.op.Op == "GC" {
+			continue
+		}
+		if !a.started {
+			a.started = true
+			s.clock++
+			a.inv = s.clock
+			go run(a)
+		}
+		if a.finished {
+			continue
+		}
+		if a.pending == "" {
+			s.settle(a, wait)
+		}
+		if !a.finished && a.pending != "" {
+			ready = append(ready, a)
+		}
+	}
+	if len(ready) == 0 {
+		return false
+	}
+	for _, a := range ready {
+		a.calls = append(a.calls, a.pending)
+		a.pending = ""
+	}
+	for _, a := range ready {
+		a.release <- struct{}{}
+	}
+	for _, a := range ready {
+		s.settle(a, limbo)
+	}
+	return true
+}
+
 func ccOp(r ccReq) Op {
 	switch r.K {
 	case "Put":
@@ -164,6 +205,15 @@ func ccOp(r ccReq) Op {
 		return Op{Op: "GC", Repo: "r1"}
 	case "BlobPut":
 		return Op{Op: "UpPost", Repo: "r1", Dig: "sha256:" + r.D, Chunk: Chunk{C: r.D, P: "all"}}
+	// requests on the open session s1 of setup s4 (it holds all of b4)
+	case "UpPatch":
+		return Op{Op: "UpPatch", Repo: "r1", Sess: "s1", Cr: "ok", St: "ok", Chunk: Chunk{C: r.D, P: "p1"}}
+	case "UpPut":
+		return Op{Op: "UpPut", Repo: "r1", Sess: "s1", St: "ok", Dig: r.T + ":" + r.D, Chunk: Chunk{C: r.D, P: "e"}}
+	case "UpGet":
+		return Op{Op: "UpGet", Repo: "r1", Sess: "s1"}
+	case "UpDel":
+		return Op{Op: "UpDel", Repo: "r1", Sess: "s1"}
 	case "BlobDel":
 		return Op{Op: "BlobDel", Repo: "r1", Dig: "sha256:" + r.D}
 	case "BlobGet":
@@ -185,6 +235,8 @@ func ccSetupOps(setup string) []Op {
 		ops = append(ops, put("a1", "none"), put("a2", "none"))
 	case "s3":
 		ops = append(ops, put("a1", "none"), put("m2", "t2"))
+	case "s4":
+		ops = append(ops, Op{Op: "UpPost", Repo: "r1"}, Op{Op: "UpPatch", Repo: "r1", Sess: "s1", Cr: "ok", St: "ok", Chunk: Chunk{C: "b4", P: "all"}})
 	}
 	return ops
 }
@@ -193,7 +245,11 @@ func ccSetupOps(setup string) []Op {
 func (e *Exec) doAs(actor string, op Op) Resp {
 	ex := *e
 	ex.Actor = actor
-	ex.Sess = map[string]*sessInfo{} // client side bookkeeping is per request here
+	ex.Sess = map[string]*sessInfo{} // client side bookkeeping is per request here: every request starts from what the setup left
+	for h, si := range e.Sess {
+		c := *si
+		ex.Sess[h] = &c
+	}
 	if op.Op == "GC" {
 		// a collection of the repository, as the background ticker would run it: it waits for the requests in flight
 		err := e.Srv.S.VerifGC(e.repoReal(op.Repo))
@@ -239,7 +295,7 @@ func cmdConc(args []string) {
 	w := bufio.NewWriterSize(of, 1<<20)
 	defer func() { w.Flush(); of.Close() }()
 	enc := json.NewEncoder(w)
-	cat, err := BuildCatalogue(CatOpts{Seed: *seed, Contents: []string{"m1", "m2", "a1", "a2", "b3", "b4"}, Algs: []string{"sha256"}, Repos: []string{ccRepo}, NTags: 2})
+	cat, err := BuildCatalogue(CatOpts{Seed: *seed, Contents: []string{"m1", "m2", "a1", "a2", "b3", "b4"}, Algs: []string{"sha256", "sha512"}, Repos: []string{ccRepo}, NTags: 2})
 	if err != nil {
 		fatal(err)
 	}
@@ -270,7 +326,9 @@ func cmdConc(args []string) {
 			for variant := first; variant <= last; variant++ {
 				nruns++
 				isBurst := variant > *free
-				cold := isBurst && store == "dir" && ((ep.Burst > 0 && ep.Cold) || (ep.Burst == 0 && (variant-*free)%3 != 0))
+				cold := isBurst && store == "dir" && !ep.Integ && ((ep.Burst > 0 && ep.Cold) || (ep.Burst == 0 && (variant-*free)%3 != 0)) // (sessions do not survive a restart)
+				// session episodes: every other random schedule releases two pending store calls at the same moment
+				together := ep.Integ && !isBurst && variant%2 == 1 && len(ep.Order) == 0
 				id := fmt.Sprintf("e%d-%s-%d", neps, store, variant)
 				root := ""
 				if store != "mem" {
@@ -362,7 +420,17 @@ func cmdConc(args []string) {
 					}
 					sched.clock = 2
 				} else {
-					for _, ai := range order {
+					for oi, ai := range order {
+						if together && len(actors) > 1 {
+							bi := order[(oi+1)%len(order)]
+							if bi == ai {
+								bi = (ai + 1) % len(actors)
+							}
+							if sched.advanceTogether([]*ccActor{actors[ai], actors[bi]}, run, wait, limbo) {
+								played = append(played, ai, bi)
+							}
+							continue
+						}
 						if sched.advance(actors[ai], run, wait, limbo) {
 							played = append(played, ai)
 						}
@@ -426,11 +494,11 @@ func cmdConc(args []string) {
 						TagList: []string{}, Refs: []ObsRef{}, Sess: []ObsSess{}, Errs: []string{"hung"}}
 				}
 				_ = enc.Encode(map[string]any{"k": "conc", "id": id, "i": ev + 1, "episode": ep, "store": store, "variant": variant, "ops": ops,
-					"obs": map[string]RepoObs{"r1": obs}, "drift": isDrift, "hung": isHung, "played": played, "burst": isBurst, "cold": cold})
+					"obs": map[string]RepoObs{"r1": obs}, "drift": isDrift, "hung": isHung, "played": played, "burst": isBurst, "cold": cold, "integ": ep.Integ})
 				if !isHung {
 					closeGuarded(srv)
 				}
-				if root != "" {
+				if root != "" && os.Getenv("VH_KEEPROOT") == "" {
 					_ = os.RemoveAll(filepath.Dir(root))
 				}
 			}
